@@ -79,6 +79,7 @@ type Tr struct {
 }
 
 type allocInfo struct {
+	mk      ssa.Value // MakeMap value (a is nil then)
 	a       *ssa.Alloc
 	ref     string
 	escapes []ssa.Instruction // instructions at which the address (or a derived pointer) escapes
@@ -118,6 +119,7 @@ type Frame struct {
 	defers   []*deferRec
 	rets     []retRec
 	allocs   map[*ssa.Alloc]*allocInfo
+	mkmaps   map[ssa.Value]*allocInfo
 	allocL   []*allocInfo
 	loops    map[int]*loopInfo // by header index
 	reach    [][]bool
@@ -600,7 +602,7 @@ func (tr *Tr) newFrame(fn *ssa.Function, parent *Frame) *Frame {
 	tr.frames++
 	f := &Frame{
 		tr: tr, fn: fn, vals: map[ssa.Value]Val{}, out: map[[2]int]PP{}, blockPP: map[int]PP{},
-		allocs: map[*ssa.Alloc]*allocInfo{}, loops: map[int]*loopInfo{}, callOrd: map[string]int{},
+		allocs: map[*ssa.Alloc]*allocInfo{}, mkmaps: map[ssa.Value]*allocInfo{}, loops: map[int]*loopInfo{}, callOrd: map[string]int{},
 		callName: map[ssa.Instruction]string{}, act: tr.frames, params: map[string]Val{}, backPP: map[int][]backEdge{},
 		loopGhosts: map[int][]string{},
 	}
@@ -700,8 +702,19 @@ func (f *Frame) analyse() {
 				ai := &allocInfo{a: a}
 				f.allocs[a] = ai
 				f.allocL = append(f.allocL, ai)
-				f.escapeWalk(ai, a, map[ssa.Value]bool{})
 			}
+			if mm, ok := in.(*ssa.MakeMap); ok {
+				ai := &allocInfo{mk: mm}
+				f.mkmaps[mm] = ai
+				f.allocL = append(f.allocL, ai)
+			}
+		}
+	}
+	for _, ai := range f.allocL {
+		if ai.a != nil {
+			f.escapeWalk(ai, ai.a, map[ssa.Value]bool{})
+		} else {
+			f.escapeWalk(ai, ai.mk, map[ssa.Value]bool{})
 		}
 	}
 }
@@ -763,6 +776,23 @@ func (f *Frame) escapeWalk(ai *allocInfo, v ssa.Value, seen map[ssa.Value]bool) 
 				ai.stores = append(ai.stores, x)
 			}
 			if x.Val == v {
+				if root := rootAlloc(x.Addr); root != nil && root != ai.a {
+					// stored into a local object: escapes when that object does, or when the object is copied out whole
+					ri := f.allocs[root]
+					if ri != nil {
+						f.escapeWalk(ai, root, seen)
+						if rr := root.Referrers(); rr != nil {
+							for _, u := range *rr {
+								if ld, ok := u.(*ssa.UnOp); ok {
+									if _, isStruct := pointee(root.Type()).Underlying().(*types.Struct); isStruct {
+										ai.escapes = append(ai.escapes, ld)
+									}
+								}
+							}
+						}
+						continue
+					}
+				}
 				ai.escapes = append(ai.escapes, x)
 			}
 		case *ssa.FieldAddr:
@@ -840,6 +870,15 @@ func (f *Frame) escapedBefore(ai *allocInfo, at ssa.Instruction) bool {
 // allocLocs enumerates (heap name, ref) locations belonging to an alloc.
 func (f *Frame) allocLocs(ai *allocInfo) [][2]string {
 	if ai.locs != nil {
+		return ai.locs
+	}
+	if ai.mk != nil {
+		if _, _, ok := mapSorts(ai.mk.Type()); ok {
+			vn, hn := mapHeapNames(ai.mk.Type())
+			ai.locs = [][2]string{{vn, ai.ref}, {hn, ai.ref}}
+		} else {
+			ai.locs = [][2]string{}
+		}
 		return ai.locs
 	}
 	var locs [][2]string
@@ -1523,6 +1562,10 @@ func (f *Frame) block(b *ssa.BasicBlock) {
 			tr.nalloc++
 			ref := sInt(int64(-tr.nalloc))
 			f.vals[x] = Val{K: VMap, T: ref, Typ: x.Type()}
+			if ai := f.mkmaps[x]; ai != nil {
+				ai.ref = ref
+				ai.locs = nil
+			}
 			f.initMap(x.Type(), ref)
 		case *ssa.MakeSlice:
 			tr.nalloc++
@@ -1980,5 +2023,23 @@ func (tr *Tr) ghostFrameTerm(g string, st *State) string {
 		}
 		allowed = sSto(allowed, kv.T, sSel(cur, kv.T))
 	}
+	allowed = tr.allowFreshKeys(allowed, cur, gd)
 	return sEq(cur, allowed)
+}
+
+// rootAlloc follows FieldAddr/IndexAddr chains to the local allocation an address is derived from (nil otherwise).
+func rootAlloc(addr ssa.Value) *ssa.Alloc {
+	for i := 0; i < 8; i++ {
+		switch x := addr.(type) {
+		case *ssa.Alloc:
+			return x
+		case *ssa.FieldAddr:
+			addr = x.X
+		case *ssa.IndexAddr:
+			addr = x.X
+		default:
+			return nil
+		}
+	}
+	return nil
 }
